@@ -801,6 +801,29 @@ func (r *runner) asyncWait(a *AsyncReq) {
 		}
 		r.s.SleepSim(200 * time.Millisecond)
 	}
+	if r.c.Oracles.Retention {
+		// fractions the search had listed may have been retired before it reached them: what it lists must have been
+		// submitted and must match, once each and in the requested order; completeness is not demanded
+		var prev seq.ID
+		for i, h := range simenv.DecodeSearch(resp.Response).Hits {
+			d := r.issued[mid(h.ID)]
+			if d == nil {
+				r.violate("unknown_id", "asynchronous search %q lists %s, which was never submitted", a.S.Q.SeqQL(), mid(h.ID))
+				return
+			}
+			if !a.S.Q.Match(d) || d.MID < a.S.From || d.MID > a.S.To {
+				r.violate("search_wrong_doc", "asynchronous search %q lists %s, which does not match", a.S.Q.SeqQL(), mid(h.ID))
+				return
+			}
+			if i > 0 && (h.ID == prev || seq.Less(h.ID, prev) != a.S.Desc) {
+				r.violate("search_order", "asynchronous search %q: ids %v, %v out of order or repeated (desc=%v)", a.S.Q.SeqQL(), prev, h.ID, a.S.Desc)
+				return
+			}
+			prev = h.ID
+		}
+		r.s.Probe("async_under_retention_done")
+		return
+	}
 	// expected: the synchronous answer over the fractions that existed when the search was started.
 	// Documents submitted before the start (all acknowledged and indexed then) must be there. A document
 	// submitted later may be part of the answer only if it went into a fraction that existed at the
